@@ -69,6 +69,8 @@ def warm_quick():
   runs.append(('LiftDiff', 'LiftDiff.cfg', dict(workers=1, timeout=900)))
   for md in ('vmap', 'scan', 'grad', 'alias'):
     runs.append(('NnxLoop', f'NnxLoop_{md}.cfg', dict(workers=1, timeout=900)))
+  for md in ('axis', 'rules'):
+    runs.append(('Partition', f'Partition_{md}.cfg', dict(workers=1, timeout=900)))
   runs.append(('NnxGraph', 'NnxGraph_mc.cfg', dict(workers=16, timeout=3000)))
   runs.append(('NnxGraph', 'NnxGraph_small.cfg', dict(workers=1, timeout=3000)))
   return runs
